@@ -88,8 +88,23 @@ def sp_forall(eng, node, st, exists=False):
             raise ContractError("forall(lo, hi, lambda) or forall(lambda)")
         body = eng.ev(lam.body, st)
         body = truth(body) if body.k != 'bool' else body.t
+        pats = []
+        for kw in node.keywords:
+            if kw.arg == 'pat':
+                elts = kw.value.elts if isinstance(kw.value, ast.Tuple) else [kw.value]
+                terms = []
+                for e in elts:
+                    v = eng.ev(e, st)
+                    terms.append(v.t if v.t is not None else None)
+                pats.append(z3.MultiPattern(*terms) if len(terms) > 1 else terms[0])
     finally:
         _unbind(st, saved)
+    if pats and not exists:
+        f = z3.Implies(z3.And(*rng), body) if rng else body
+        try:
+            return vbool(z3.ForAll(consts, f, patterns=pats))
+        except z3.Z3Exception:
+            pass
     if exists:
         f = z3.And(*(rng + [body]))
         return vbool(z3.Exists(consts, f))
@@ -287,7 +302,43 @@ def sp_sqrt(eng, node, st):
     return models.np_sqrt(eng, st, [eng.ev(node.args[0], st)], {}, node)
 
 
-SPEC_BUILTINS = dict(psum=sp_psum, rsum=sp_rsum, norm=sp_norm, sqrt=sp_sqrt, forall=sp_forall, exists=sp_exists, implies=sp_implies, ite=sp_ite, old=sp_old,
+def sp_matmul(eng, node, st):
+    from . import models
+    return models.matmul(eng, st, eng.ev(node.args[0], st), eng.ev(node.args[1], st), node)
+
+
+def sp_eigh_of(eng, node, st):
+    """eigh_of(D, Q, lambda i, j: m_ij, n): (D, Q) is the assumed eigen-decomposition of the n x n matrix m"""
+    from . import models
+    d, q = eng.ev(node.args[0], st), eng.ev(node.args[1], st)
+    n = to_int(eng.ev(node.args[3], st))
+    names, consts, saved = _bind_lambda(eng, node.args[2], st)
+    try:
+        body = eng.ev(node.args[2].body, st)
+    finally:
+        _unbind(st, saved)
+    models._CUR[0] = st
+    arr = models.lam(consts, to_real(body))
+    rel = eng.uf('eigh_rel', z3.ArraySort(I, I, R), I, z3.ArraySort(I, R), z3.ArraySort(I, I, R), B)
+    return vbool(rel(arr, n, eng.arr_data(st, d), eng.arr_data(st, q)))
+
+
+def sp_copyof(eng, node, st):
+    """ghost snapshot of an array / list (fresh reference, same contents)"""
+    v = eng.ev(node.args[0], st)
+    if v.k[0] == 'arr':
+        return eng.mk_arr(st, v.k[1], v.k[2], eng.arr_shape(st, v), eng.arr_data(st, v))
+    if v.k[0] == 'list':
+        return eng.mk_list(st, v.k[1], eng.list_len(st, v), eng.list_arr(st, v))
+    raise ContractError("copyof() of %r" % (v.k,))
+
+
+def sp_transpose(eng, node, st):
+    from . import models
+    return models.transpose(eng, st, eng.ev(node.args[0], st))
+
+
+SPEC_BUILTINS = dict(psum=sp_psum, rsum=sp_rsum, norm=sp_norm, sqrt=sp_sqrt, matmul=sp_matmul, copyof=sp_copyof, transpose=sp_transpose, eigh_of=sp_eigh_of, forall=sp_forall, exists=sp_exists, implies=sp_implies, ite=sp_ite, old=sp_old,
                      fresh=sp_fresh, same=sp_same, unchanged=sp_unchanged, isnone=sp_isnone, real=sp_real,
                      eqcontent=sp_eqcontent, let=sp_let, alloc_now=sp_alloc)
 
@@ -306,6 +357,10 @@ def call_specfn(eng, fn, args, st):
             body = eng.ev(lam.body, ss)
             bt = to_real(body) if retk == 'real' else body.t
             st.pc.append(z3.ForAll(bound, f(*bound) == bt, patterns=[f(*bound)]))
+            for ax in fn.axioms:
+                if 'derived-axioms-off' not in st.ghost:
+                    st.pc.append(eval_bool(eng, ax, {}, st))
+                    eng.assumed.add("derived axiom of spec function %s (proved in lemmas/): %s" % (fn.name, ax))
         ts = [to_real(a) if k == 'real' else a.t for a, k in zip(args, argk)]
         return Val(retk, f(*ts))
     if fn.tree is not None:
@@ -316,10 +371,17 @@ def call_specfn(eng, fn, args, st):
         ss = spec_state(st, dict(zip(names, args)), st.old, {})
         return eng.ev(lam.body, ss)
     argk, retk = fn.sig
-    f = eng.uf('spec_' + fn.name, *([sort_of(k) for k in argk] + [sort_of(retk)]))
-    ts = []
+    argk = [parse_kind(k) for k in argk]
+    ts, sorts = [], []
     for a, k in zip(args, argk):
-        ts.append(to_real(a) if k == 'real' else a.t)
+        if isinstance(k, tuple) and k[0] == 'arr':
+            d = eng.arr_data(st, a)
+            ts.append(d)
+            sorts.append(d.sort())
+        else:
+            ts.append(to_real(a) if k == 'real' else a.t)
+            sorts.append(sort_of(k))
+    f = eng.uf('spec_' + fn.name, *(sorts + [sort_of(retk)]))
     key = 'axioms:' + fn.name
     if key not in st.ghost:
         st.ghost[key] = True
@@ -478,7 +540,24 @@ def call_repo(eng, qualname, args, kwargs, st, node):
     c = S.CONTRACTS.get(qualname)
     mod, fdef = eng.repo.find_function(qualname)
     if c is None:
-        raise ContractError("call to %s which has no contract" % qualname)
+        # contract variants (same function, different parameter kinds): pick the one the actuals fit
+        for vq, vc in S.CONTRACTS.items():
+            if vq.startswith(qualname + '#'):
+                try:
+                    env = bind_params(eng, mod, fdef, args, kwargs, st)
+                    for n, kind in vc.params.items():
+                        if is_ref_kind(kind) != is_ref_kind(env[n].k) and env[n].k != 'none':
+                            raise ContractError('kind')
+                        if kind == 'real' and env[n].k == 'int' and any(
+                                o.params.get(n) == 'int' for oq, o in S.CONTRACTS.items() if oq.startswith(qualname + '#')):
+                            raise ContractError('kind')
+                        coerce(eng, st, env[n], kind, n)
+                    c = vc
+                    break
+                except ContractError:
+                    continue
+    if c is None:
+        raise ContractError("call to %s which has no (matching) contract" % qualname)
     if c.inline:
         return inline_body(eng, mod, fdef, args, kwargs, st, node)
     return apply_contract(eng, c, mod, fdef, args, kwargs, st, node)
@@ -616,7 +695,7 @@ def apply_contract(eng, c, mod, fdef, args, kwargs, st, node):
     if c.allocates:
         na = z3.Int(fresh_name('alloc'))
         st.assume(na >= st.heap.alloc)
-        st.heap.alloc = na
+        st.heap.new_epoch(na)
     result = fresh_of_kind(eng, st, c.returns, 'res_' + short) if c.returns is not None else NONE
     env2 = dict(env)
     env2['result'] = result
